@@ -509,6 +509,26 @@ def _svd(fr, args, kwargs):
     return matmodel.svd(N.asarray(args[0]), kwargs.get("full_matrices", args[1] if len(args) > 1 else True))
 
 
+@model("numpy.linalg.eig")
+def _eig(fr, args, kwargs):
+    from . import matmodel
+    if kwargs:
+        raise Unsupported(f"np.linalg.eig with keyword(s) {sorted(kwargs)}")
+    return matmodel.eig(N.asarray(args[0]))
+
+
+@model("scipy.linalg.eig")
+def _sp_eig(fr, args, kwargs):
+    from . import matmodel
+    extra = set(kwargs) - {"left", "right"}
+    if extra or len(args) > 1 or kwargs.get("right", True) is not True:
+        raise Unsupported(f"scipy.linalg.eig with arguments outside the kernel's contract ({sorted(extra)})")
+    left = kwargs.get("left", False)
+    if left is not True and left is not False:
+        raise Unsupported("scipy.linalg.eig(left=<symbolic>)")
+    return matmodel.eig(N.asarray(args[0]), left=left)
+
+
 @model("numpy.linalg.inv")
 def _inv(fr, args, kwargs):
     from . import matmodel
